@@ -485,6 +485,31 @@ def r6(ctx):
         raise AnalysisBroken('C16.R6: no store into m_userLevels found in UserList::addFromFile')
 
 
+def r7(ctx):
+    ctx.rule('C16.R7', 'the data sinks (MQTT, KNX) look messages up with their configured level list or with the empty list (messages '
+             'without level only): the level argument of every MessageMap::find(circuit, name, levels, ...) / findAll(...) in the '
+             'handler classes is m_levels or "", never the wildcard or another list', minimum=6, star=True)
+    fb = ctx.fb
+    n = 0
+    for fn in fb.functions:
+        if not fn.blocks or not fn.relfile.startswith('src/ebusd/') or not fn.cls or not ('Handler' in fn.cls or 'DataSink' in fn.cls) \
+                or fn.cls.endswith('BusHandler'):
+            continue
+        for c in fn.all('CXXMemberCallExpr'):
+            v = fn.nodes[c]
+            cal = v.get('callee') or ''
+            if not ((cal.endswith('MessageMap::find') and 'MasterSymbolString' not in v.get('sig', '')) or cal.endswith('MessageMap::findAll')):
+                continue
+            if len(v.get('args', [])) < 3:
+                continue
+            n += 1
+            a = fn.key(v['args'][2])
+            ok = a == 'this.m_levels' or a.startswith('std::basic_string{""')
+            ctx.ob('C16.R7', fn, c, ok, 'lookup levels in %s::%s' % (fn.cls.split('::')[-1], fn.name.split('::')[-1]), 'passes %s' % a[:60])
+    if n < 6:
+        raise AnalysisBroken('C16.R7: only %d filtered lookups found in the data sink classes' % n)
+
+
 def run(ctx):
     r1(ctx)
     r2(ctx)
@@ -492,3 +517,4 @@ def run(ctx):
     r4(ctx)
     r5(ctx)
     r6(ctx)
+    r7(ctx)
